@@ -6,12 +6,13 @@ operation. The first token selects the model. Unparseable operations answer `bad
 import Liftbridge.Base
 import Liftbridge.Driver.Crc
 import Liftbridge.Model.Envelope
+import Liftbridge.Driver.LogDrv
 
 namespace Liftbridge.Driver
 open Liftbridge
 
 structure St where
-  dummy : Nat := 0
+  log : Log.CLog := Log.CLog.init 1024 false
 
 def showRes {α} (f : α → String) : Res α → String
   | .ok a => "ok " ++ f a
@@ -45,6 +46,7 @@ def c14 (toks : List String) : String :=
 def step (st : St) (line : String) : St × String :=
   match (line.splitOn " ").filter (· ≠ "") with
   | "c14" :: rest => (st, c14 rest)
+  | "log" :: rest => let (l, out) := logStep st.log rest; ({ st with log := l }, out)
   | _ => (st, "bad-op")
 
 partial def loop (hin hout : IO.FS.Stream) (st : St) : IO Unit := do
